@@ -83,6 +83,37 @@ def build(shape, w, rng, variant, bigimm, want_instr=False):
     return "14 -2 12 %d %s" % (len(insts), " ".join(insts))
 
 
+def shape_signature(sh):
+    """(operation, kind of each operand, which operands coincide): the instruction selectors branch on this"""
+    toks = (sh[:-2] if sh.endswith(" F") else sh).split()
+    locs, i = [], 1
+    while i < len(toks):
+        locs.append((toks[i], toks[i + 1]))
+        i += 2
+
+    def kind(l):
+        if l[0] == "t":
+            return "r" if int(l[1]) < 11 else "s"
+        return l[0]
+    eq = tuple(locs[i] == locs[j] for i in range(len(locs)) for j in range(i + 1, len(locs)))
+    return (toks[0], tuple(kind(l) for l in locs), eq, sh.endswith(" F"))
+
+
+def sample_shapes(shapes, sample, seed):
+    """a 1-in-`sample` selection of the shapes that still contains at least one shape of every signature
+    (so that every branch of the selectors is exercised by every run, whatever the seed)"""
+    if not sample:
+        return shapes
+    keep = [(i * 7919 + seed) % sample == 0 for i in range(len(shapes))]
+    seen = set(shape_signature(s) for s, k in zip(shapes, keep) if k)
+    for i, s in enumerate(shapes):
+        g = shape_signature(s)
+        if g not in seen:
+            seen.add(g)
+            keep[i] = True
+    return [s for s, k in zip(shapes, keep) if k]
+
+
 def run_forms(res, backends, widths=(8, 16, 32, 64), sample=None, max_report=4):
     rng = C.Rng(res.seed * 104729 + 3)
     driver = C.build_driver()
@@ -92,8 +123,7 @@ def run_forms(res, backends, widths=(8, 16, 32, 64), sample=None, max_report=4):
     rep = 0
     for w in widths:
         shapes = C.run_lines(driver, ["shapes|%d" % w], shards=1)[0].split(";")
-        if sample:
-            shapes = [s for i, s in enumerate(shapes) if (i * 7919 + res.seed) % sample == 0]
+        shapes = sample_shapes(shapes, sample, res.seed)
         tests = []
         for sh, variants in with_boundary_imms(shapes, w, stride=max(1, (sample or 1) // 2), phase=res.seed):
             fused = sh.endswith(" F")
@@ -136,8 +166,7 @@ def run_x86_forms(res, widths=(8, 16, 32, 64), sample=None, max_report=4):
     rep = 0
     for w in widths:
         shapes = [s for s in C.run_lines(driver, ["shapes|%d" % w], shards=1)[0].split(";") if not s.endswith(" F")]
-        if sample:
-            shapes = [s for i, s in enumerate(shapes) if (i * 7919 + res.seed) % sample == 0]
+        shapes = sample_shapes(shapes, sample, res.seed)
         tests = []
         for sh, variants in with_boundary_imms(shapes, w, stride=max(1, (sample or 1) // 2), phase=res.seed):
             for variant in variants:
